@@ -322,7 +322,46 @@ def rule_r5(p, res):
     r.note("repeat(): element order of `%s` is not decided statically" % norm([n for n in walk_own(rp.node) if isinstance(n, ast.Assign) and "_callables" in norm(n.targets[0])][0].value)[:60])
 
 
-RULES = [rule_r1, rule_r2, rule_r3, rule_r4, rule_r5]
+def rule_r6(p, res):
+    r = res.rule("C19.R6", "video-backed lazy lists: the stream cursor invariant (index = last frame consumed) gives frame i for request i")
+    c = p.cls("FFMpegVideoReader")
+    gi = p.own_method("FFMpegVideoReader", "__getitem__")
+    r.instance(gi)
+    idx = gi.params[1]
+    ifs = [n for n in gi.node.body if isinstance(n, ast.If)]
+    need(len(ifs) == 1, "C19.R6: reader dispatch not recognised")
+    t = ifs[0].test
+    parts = t.values if isinstance(t, ast.BoolOp) and isinstance(t.op, ast.Or) else [t]
+    cmp_ = [x for x in parts if isinstance(x, ast.Compare) and len(x.ops) == 1 and {norm(x.left), norm(x.comparators[0])} == {idx, "self.index"}]
+    need(len(cmp_) == 1, "C19.R6: cursor comparison not found in the re-open test")
+    k = cmp_[0]
+    op = type(k.ops[0]).__name__
+    left_is_idx = norm(k.left) == idx
+    ok = (left_is_idx and op == "LtE") or (not left_is_idx and op == "GtE")
+    r.check(ok, gi, k, "the pipe must be re-opened whenever the requested frame is not strictly ahead of the cursor (`%s <= self.index`); with `%s` re-reading the frame just read "
+            "returns the next frame of the stream" % (idx, norm(k)), {"reopen_test": norm(k)})
+    body = " ".join(norm(x) for x in ifs[0].body)
+    r.check(body == "self._open_pipe(frame=%s)" % idx, gi, ifs[0], "re-opening must seek to the requested frame")
+    els = "\n".join(norm(x) for x in ifs[0].orelse)
+    r.check("to_trash = %s - self.index - 1" % idx in els and "if to_trash > 0:" in els and "self._trash_frames(to_trash)" in els, gi, ifs[0], "frames between the cursor and the request must be skipped (index - cursor - 1 of them)")
+    r.check(norm(gi.node.body[-1]) == "return self._read_one_frame()", gi, gi.node, "exactly one frame is read after positioning")
+    op_ = p.own_method("FFMpegVideoReader", "_open_pipe")
+    r.instance(op_)
+    s = norm(op_.node)
+    r.check("self.index = frame - 1" in s and "frame = 0" in s, op_, op_.node, "after (re)opening at frame f the cursor is f - 1")
+    rd = p.own_method("FFMpegVideoReader", "_read_one_frame")
+    r.instance(rd)
+    r.check("self.index += 1" in norm(rd.node), rd, rd.node, "reading a frame advances the cursor by one")
+    tr = p.own_method("FFMpegVideoReader", "_trash_frames")
+    r.instance(tr)
+    r.check("self.index += %s" % tr.params[1] in norm(tr.node), tr, tr.node, "skipping n frames advances the cursor by n")
+    imp = p.func("menpo.io.input.video.ffmpeg_importer")
+    r.instance(imp)
+    s = norm(imp.node)
+    r.check("LazyList.init_from_index_callable(lambda x: Image.init_from_channels_at_back(reader[x]), len(reader))" in s, imp, imp.node, "element i of a video lazy list must read frame i of the reader")
+
+
+RULES = [rule_r1, rule_r2, rule_r3, rule_r4, rule_r5, rule_r6]
 
 WITNESSES = [
     Witness("C19.W1", "menpo/base.py", "LazyList.repeat", "new = self.copy()", "new = self", rule="C19.R2", construct="repeat"),
@@ -338,5 +377,6 @@ WITNESSES = [
     Witness("C19.W6", "menpo/base.py", "LazyList.map", "for one_f, x in zip(f, new._callables)", "for x, one_f in zip(f, new._callables)", rule="C19.R5", construct="LazyList.map"),
     Witness("C19.W7", "menpo/base.py", "LazyList.__getitem__", "return LazyList([self._callables[s] for s in slice_])", "return LazyList([self._callables[s]() for s in slice_])",
             rule="C19.R1", construct="__getitem__"),
+    Witness("C19.W8", "menpo/io/input/video.py", "FFMpegVideoReader.__getitem__", "index <= self.index", "index < self.index", rule="C19.R6", construct="FFMpegVideoReader.__getitem__", note="seeded change C19-A"),
     Witness("C19.T1", "menpo/base.py", "LazyList.copy", "new._callables = list(self._callables)", "new._callables = self._callables[:]", kind="T"),
 ]
